@@ -13,7 +13,8 @@ Definition d_atom (t : tree) : option atom :=
   | L [I 1] => Some ANull
   | L [I 2; i] => obind (as_nat i) (fun i => Some (ACol i))
   | L [I 3; i] => obind (as_nat i) (fun i => Some (AExc i))
-  | L [I 4; i] => obind (as_nat i) (fun i => Some (APar i))
+  | L [I 4; i] => obind (as_nat i) (fun i => Some (APar i))   (* bindparam(name) *)
+  | L [I 5; i] => obind (as_nat i) (fun i => Some (APar i))   (* bindparam(name, None): same to the compiler *)
   | _ => None
   end.
 Definition d_expr (t : tree) : option expr :=
@@ -146,6 +147,7 @@ Definition clause_uses (k : nat) (c : sa_clause) : bool :=
   end.
 
 (* input   L [I 0; lit_exec; cols; indexes; clauses; returning; sorted; page; table; params]   execute (SQLite/PG rules)
+           L [I 6; sqlite; cols; indexes; [clauses ...]; returning; sorted; page; table; params]  sequence on one engine
            L [I 1; dialect; cols; clauses]                              render ON CONFLICT clauses (0 sqlite, 1 postgresql)
            L [I 2; cols; alias; ordered; update]                        render ON DUPLICATE KEY UPDATE
            L [I 5; embed; clauses; returning; sorted; page; params]     the statements of an executemany: size and effective bindparams
@@ -157,6 +159,15 @@ Definition run_case (t : tree) : tree :=
             as_bool ret, as_bool srt, as_nat pg, as_list_of d_row tb, as_list_of d_prow ps with
       | Some le, Some cs, Some ixs, Some sa, Some ret, Some srt, Some pg, Some tb, Some ps =>
           e_result ret srt (exec_impl idf le false cs ixs sa ret srt pg tb ps)
+      | _, _, _, _, _, _, _, _, _ => bad_input
+      end
+  | L [I 6; le; cs; ixs; sas; ret; srt; pg; tb; ps] =>
+      (* a SEQUENCE of statements (same table contents and parameters each time): the compiled cache of the
+         engine must not make a statement behave like an earlier one - the model has no cache *)
+      match as_bool le, as_list_of d_col cs, as_list_of d_ix ixs, as_list_of (as_list_of d_clause) sas,
+            as_bool ret, as_bool srt, as_nat pg, as_list_of d_row tb, as_list_of d_prow ps with
+      | Some le, Some cs, Some ixs, Some sas, Some ret, Some srt, Some pg, Some tb, Some ps =>
+          L (map (fun sa => e_result ret srt (exec_impl idf le false cs ixs sa ret srt pg tb ps)) sas)
       | _, _, _, _, _, _, _, _, _ => bad_input
       end
   | L [I 1; I _; cs; sa] =>
